@@ -130,6 +130,14 @@ pub fn state(a: &BinArchive, level: u8) -> String {
                             addr += 1;
                         }
                         s.push_str(&format!(" rc=[{}]", rc.join(",")));
+                        if level >= 3 {
+                            // full observable state of the re-parsed archive and its re-serialization
+                            s.push_str(&format!(" re:{}", state(&re, 1)));
+                            match re.serialize() {
+                                Ok(b2) => s.push_str(&format!(" reser={}", if b2 == b { "same".to_string() } else { show_b(&b2) })),
+                                Err(_) => s.push_str(" reser=err"),
+                            }
+                        }
                     }
                     Err(_) => s.push_str(" rc=err"),
                 }
@@ -151,7 +159,7 @@ fn b(tok: &str) -> bool {
 
 pub fn run(toks: &[&str]) -> String {
     let endian = if toks[0] == "B" { Endian::Big } else { Endian::Little };
-    let level: u8 = toks[1][1..].parse().unwrap();
+    let mut level: u8 = toks[1][1..].parse().unwrap();
     let mut a = BinArchive::new(endian);
     let mut rpos: usize = 0; // reader cursor
     let mut wpos: usize = 0; // writer cursor
@@ -202,6 +210,10 @@ pub fn run(toks: &[&str]) -> String {
                 }
                 Err(e) => (err_kind(&e).to_string(), 1),
             },
+            "lvl" => {
+                level = arg(1).parse().unwrap();
+                ("ok".to_string(), 1)
+            }
             "aae" => {
                 a.allocate_at_end(u(arg(1)));
                 ("ok".to_string(), 1)
